@@ -231,6 +231,21 @@ def h_formula(E, cls, inp, debug):
     return str(r['ok'])
 
 
+def h_formula_sometimes(E, samples):
+    """a student formula that agrees with a partial-credit answer at SOME sample points only (|x| vs x on a range around 0): whatever the pattern of
+    agreeing and disagreeing samples, the result is well-formed - full answer credit if every sample agrees, otherwise no credit"""
+    from mitxgraders import FormulaGrader
+    SX = make_sym_sampler(E, 'x', -2, 2)
+    a = E.real('a', 0, 1)
+    g = FormulaGrader(answers={'expect': 'abs(x)', 'grade_decimal': a, 'msg': 'm'}, variables=['x'], sample_from={'x': SX()}, samples=samples)
+    r = g(None, 'x')
+    _entry_ok(E, r)
+    all_agree = sand(*[d >= 0 for d in SX.draws])
+    E.check('credit-iff-every-sample-agrees', near_eq(r['grade_decimal'], sif(all_agree, a, 0)))
+    _no_leak(E, [r['msg']])
+    return str(r['ok'])
+
+
 def h_matrix_entry(E, credit, inp):
     """entry-wise partial credit at every setting (0, 1, a fraction, proportional) with a partly correct submission"""
     import numpy as np
@@ -373,6 +388,8 @@ def harnesses(tier):
         for inp in ('right', 'alt', 'wrong'):
             for dbg in (False, True):
                 add(h_formula, cls, dict(cls=cls, inp=inp, debug=dbg), 'symbolic samples, symbolic partial credit')
+    for n in (2, 3):
+        add(h_formula_sometimes, 'formula_sometimes', dict(samples=n), 'symbolic samples in [-2,2], symbolic answer credit')
     for credit in (0, 1, 0.5, 'proportional'):
         for inp in ('right', 'one-entry-wrong', 'all-wrong'):
             add(h_matrix_entry, 'matrix_entry', dict(credit=credit, inp=inp), 'symbolic 2-vector sample')
